@@ -22,12 +22,13 @@ Inductive target :=
 
 (* expressions.  ELoad = Name or Attribute chain rooted at a Name, Load context.
    EOp = any other node, sub-expressions in _fields order (call, binary operator, subscript,
-   tuple/list display, constant = EOp []).
+   tuple/list display, constant = EOp []).  EAttr = attribute access whose chain is not rooted at a Name.
    ELambda: positional parameters; the last [length defaults] of them carry the defaults.
    EComp: the four comprehension kinds (elts has one element, two for a dict comprehension). *)
 Inductive expr :=
 | ELoad (n : name) (attrs : list name)
 | EOp (es : list expr)
+| EAttr (e : expr) (attrs : list name)     (* attribute chain on a base that is not a Name: (e).a.b *)
 | ELambda (ps : list name) (defaults : list expr) (body : expr)
 | EComp (gens : list gen) (elts : list expr)
 with gen :=
